@@ -104,12 +104,25 @@ func init() {
 				p.W[k] = 9
 			}
 			p.PEvidence, p.PAbsent, p.PStreak = 0.04, 0.05, 0.03
+			many := r.Intn(8) == 0
 			sc := baseScenario("C08", r, seed, chain, tier, p, func(g *GenCfg, n *NodeCfg) {
 				g.NVal = 2 + r.Intn(6)
 				g.NCand = 2 + r.Intn(6)
 				g.NPool = 2 + r.Intn(4)
 				n.Period = []uint64{6, 8, 12}[r.Intn(3)]
+				if many {
+					// far more than 100 candidates, most of them with exactly the same stake: the cut at the
+					// 100th place falls inside a group of equals
+					g.NVal = 3 + r.Intn(3)
+					g.NCand = 140 + r.Intn(30)
+					g.NCoin = 0
+					g.EqualStake = true
+					n.Period = 6
+				}
 			})
+			if many && len(sc.Blocks) > 24 {
+				sc.Blocks = sc.Blocks[:24]
+			}
 			for i := range sc.Blocks {
 				for j := range sc.Blocks[i].Ops {
 					if sc.Blocks[i].Ops[j].K == "voteupdate" {
